@@ -43,10 +43,12 @@ theorem jump_to_data_rejected (s : St) (a b : Nat) (q n : String) (l : PLabel)
     (h : s.label? n = some l) (hd : l.type = .DATA) : isErr (jmpAction a b q n s) = true := by
   msimp; simp [h, hd]
 
+/-- an unknown jump target is recorded for the driver's check — at the jump itself, or, inside a
+    macro expansion, at the outermost macro use (the position a diagnostic can cite) -/
 theorem jump_undefined_recorded (s : St) (a b : Nat) (q n : String) (h : s.label? n = none) :
-    after (jmpAction a b q n s) (fun s' => (a, n) ∈ s'.undefined ∧ s'.code.size = s.code.size + 1) := by
+    after (jmpAction a b q n s) (fun s' => ((if s.lock != 0 then s.sourceLast else a), n) ∈ s'.undefined ∧ s'.code.size = s.code.size + 1) := by
   msimp; simp only [h]
-  by_cases hl : s.lock = 0 <;> by_cases hc : (a, n) ∈ s.undefined <;> simp [hl, hc]
+  by_cases hl : s.lock = 0 <;> by_cases hc : ((if s.lock != 0 then s.sourceLast else a), n) ∈ s.undefined <;> simp_all
 
 theorem duplicate_label_rejected (s : St) (start : Nat) (t : String) (l : PLabel)
     (h : s.label? (String.ofList (t.toList.take (t.length - 1))) = some l) : isErr (labelAction start t s) = true := by
